@@ -538,6 +538,9 @@ int main(int argc, char** argv)
     uint32_t t = static_cast<uint32_t>(r.below(3));
     c.tname = t == 0 ? "u16" : t == 1 ? "u32" : "u64";
     c.cap = caps[r.below(t == 0 ? 9 : 10)];
+    // one configuration in six REQUESTS a capacity that is not a power of two: the queue rounds it up, and every check
+    // below uses the capacity the queue reports
+    if (r.chance(1, 6)) c.cap = c.cap - r.range(1, c.cap / 2 - 1);
     c.pct = pcts[r.below(6)];
     c.records = records;
     c.seed = mix(seed, i + 1000);
